@@ -55,6 +55,27 @@ func quietNeeded(ev []netsim.Event) time.Duration {
 		}
 	}
 	d := time.Duration(1<<uint(k)+2) * time.Second
+	// what the senders' timers are observed to do: if the last two emissions of the same
+	// packet by one side (delivered, dropped or refused by the link alike) were g apart, the
+	// next one is due 2g after the last
+	for dir := 0; dir < 2; dir++ {
+		last := -1
+		for i := len(ev) - 1; i >= 0; i-- {
+			if ev[i].Dir != dir {
+				continue
+			}
+			if last < 0 {
+				last = i
+				continue
+			}
+			if ev[i].Key == ev[last].Key && ev[i].Pkt.Seq == ev[last].Pkt.Seq {
+				if g := 2*ev[last].T.Sub(ev[i].T) + 3*time.Second; g > d {
+					d = g
+				}
+				break
+			}
+		}
+	}
 	if d < StallQuiet {
 		d = StallQuiet
 	}
@@ -62,6 +83,18 @@ func quietNeeded(ev []netsim.Event) time.Duration {
 		d = 70 * time.Second
 	}
 	return d
+}
+
+// silentFor: time since either side last tried to put anything on the wire (a frame the
+// link refused is an attempt too).
+func silentFor(p *netsim.Pair) time.Duration {
+	q := p.W.SilentFor()
+	if ev := p.W.Events(); len(ev) > 0 {
+		if d := time.Since(ev[len(ev)-1].T); d < q {
+			q = d
+		}
+	}
+	return q
 }
 
 // OnStall is a debugging hook invoked when a stall is detected, before the
@@ -199,7 +232,7 @@ func runOnce(c Case) Result {
 		case msg = <-estab:
 			waiting = false
 		case <-time.After(100 * time.Millisecond):
-			if q := p.W.SilentFor(); q > StallQuiet && !p.W.PendingFaults() && q > quietNeeded(p.W.Events()) {
+			if q := silentFor(p); q > StallQuiet && !p.W.PendingFaults() && q > quietNeeded(p.W.Events()) {
 				// The handshake is part of the property: a connect that neither
 				// completes nor fails while the wire stays silent is a stall.
 				res.Stalled = true
@@ -347,7 +380,7 @@ func runOnce(c Case) Result {
 					}
 				}
 			}
-			if q := p.W.SilentFor(); (q > StallQuiet || noProgress) && !p.W.PendingFaults() && (noProgress || q > quietNeeded(p.W.Events())) {
+			if q := silentFor(p); (q > StallQuiet || noProgress) && !p.W.PendingFaults() && (noProgress || q > quietNeeded(p.W.Events())) {
 				res.Stalled = true
 				res.Events = p.W.Events()
 				stallState = fmt.Sprintf("A: got %d/%d eof=%v wrote %d err=%v/%v; B: got %d/%d eof=%v wrote %d err=%v/%v", len(A.got), len(A.want), A.eof, A.wrote, A.rerr, A.werr, len(B.got), len(B.want), B.eof, B.wrote, B.rerr, B.werr)
